@@ -611,6 +611,7 @@ def _with_each(gen):
     def g(rng):
         c = gen(rng)
         c["each"] = c["family"] != "polyline_circle" and rng.random() < 0.3
+        c["scale"] = rng.choice(SCALES)
         return c
     return g
 
@@ -725,28 +726,59 @@ def cut_axes(c):
     return ""
 
 
+LENGTH_KEYS = ("dim", "edges", "r", "z", "obs", "d", "points", "path")
+SCALES = (1.0, 1.0, 1e-3, 1e-6, 1e3)       # absolute size of the body in metres (the library works in SI units)
+
+
+def _mul(x, s):
+    if isinstance(x, (list, tuple)):
+        return [_mul(v, s) for v in x]
+    return x * s if x is not None else None
+
+
+def scaled(c):
+    """the case with every length (sizes, cut positions, observers, position, path) multiplied by c['scale'];
+    angles, polarization and current are unchanged.  All identities of the property are scale invariant and every
+    tolerance is relative to the field, so the same oracle applies at every absolute size."""
+    s = c.get("scale", 1.0)
+    if s == 1.0:
+        return c
+    g = dict(c)
+    for k in LENGTH_KEYS:
+        if g.get(k) is not None:
+            g[k] = _mul(g[k], s)
+    g["pose"] = {"pos": _mul(c["pose"]["pos"], s), "rotvec": c["pose"]["rotvec"]}
+    return g
+
+
+def scale_tag(c):
+    s = c.get("scale", 1.0)
+    return "" if s == 1.0 else f"scale-{s:.0e}"
+
+
 def evaluate(c):
     """returns list of failures: dict(clause, field, region, rel, obs_index, detail)"""
     fam = c["family"]
     fails = []
     if not c["obs"]:
         return fails
-    obs = to_global(c["pose"], c["obs"])
+    g = scaled(c)                 # geometry in metres; c keeps the unit-size description (regions, tags, report)
+    obs = to_global(g["pose"], g["obs"])
     try:
         if fam == "polyline_circle":
-            return eval_polyline_circle(c, obs)
+            return eval_polyline_circle(g, obs)
         if fam == "cuboid_partition":
-            comps = [(None,) + build_cuboid_partition(c) + (FIELDS,)]
+            comps = [(None,) + build_cuboid_partition(g) + (FIELDS,)]
         elif fam == "cylinder_partition":
-            comps = [(None,) + build_cylinder_partition(c) + (FIELDS,)]
+            comps = [(None,) + build_cylinder_partition(g) + (FIELDS,)]
         elif fam == "mixed_partition":
-            comps = [(None,) + build_mixed_partition(c) + (FIELDS,)]
+            comps = [(None,) + build_mixed_partition(g) + (FIELDS,)]
         elif fam == "cuboid_repr":
-            comps = [(None,) + build_cuboid_repr(c)]
+            comps = [(None,) + build_cuboid_repr(g)]
         elif fam == "sphere_dipole":
-            comps = [(None,) + build_sphere_dipole(c) + (FIELDS,)]
+            comps = [(None,) + build_sphere_dipole(g) + (FIELDS,)]
         elif fam == "mesh_convert":
-            comps = build_mesh_convert(c)
+            comps = build_mesh_convert(g)
         else:
             raise ValueError(fam)
         rtol, atol = TOL[fam]
@@ -762,7 +794,8 @@ def evaluate(c):
                     fails.append({"clause": clause_of(c, label), "field": f, "region": region_of(c, i),
                                   "rel": rel, "obs_index": i,
                                   "detail": f"{f}-field of the whole and of the parts differ by {rel:.3g} x tolerance "
-                                            f"at local observer {c['obs'][i]}"})
+                                            f"at local observer {c['obs'][i]}"
+                                            + (f" (all lengths x {c['scale']:g} m)" if c.get("scale", 1.0) != 1.0 else "")})
     except Exception as e:   # pylint: disable=broad-except
         fails.append({"clause": clause_of(c), "field": "raises", "region": type(e).__name__, "rel": float("inf"),
                       "obs_index": 0, "detail": f"valid construction/evaluation raised {type(e).__name__}: {e}"[:300]})
@@ -851,6 +884,8 @@ def _variants(c):
         v(pose={"pos": [0.0, 0.0, 0.0], "rotvec": [0.0, 0.0, 0.0]})
         v(pose={"pos": c["pose"]["pos"], "rotvec": [0.0, 0.0, 0.0]})
         v(pose={"pos": [0.0, 0.0, 0.0], "rotvec": c["pose"]["rotvec"]})
+    if c.get("scale", 1.0) != 1.0:
+        v(scale=1.0)
     if c.get("mode") not in ("loop", "single"):
         v(mode="loop")
     if c.get("each") and len(c["obs"]) > 1:
@@ -948,6 +983,8 @@ def signature(c, fl, failed=None):
             trig.append(",".join(tags))
         if c["family"] == "cylinder_partition" and fld in "BH":
             trig.append("pol-" + pol_class(c["pol"]))
+        if scale_tag(c):
+            trig.append(scale_tag(c))
     return fl["clause"] + "/" + ":".join(trig)
 
 
